@@ -260,6 +260,8 @@ theorem stream_after_any_history_exact (compress : Compress) (s : RawBody.Bytes)
   rw [runHist_obs]
   simp [obsOf, cut, writeStream_all_ok compress items h]
 
+example : [(⟨0, none, some ⟨some [1], 1⟩⟩ : Item)].all (itemOk toyCompress) = true := by decide
+
 /-- non-vacuity: a failed write (scratch left non-empty), then a computed-length item -/
 example : (runHist toyCompress [] [⟨.stream [⟨2, none, some ⟨some [7, 8, 9], 1⟩⟩], some 6⟩,
       ⟨.unary (some ⟨some [4, 4], 1⟩), some 1⟩, ⟨.stream [⟨0, none, some ⟨some [1], 1⟩⟩], none⟩]).2 =
@@ -271,6 +273,9 @@ example : (runHist toyCompress [] [⟨.stream [⟨2, none, some ⟨some [7, 8, 9
 theorem finish_sends_finishStatus (s : St) (r : Raw) (h : s.raw = some r) :
     finish s = s.wire ++ [.header (finishStatus r.status), .body r.body] := by
   simp [finish, h, finishStatus]
+
+example : (run {} [.setRaw ⟨799, [1]⟩, .write [9]]).1.raw = some ⟨799, [1]⟩ ∧
+    finish (run {} [.setRaw ⟨799, [1]⟩, .write [9]]).1 = [.header 799, .body [1]] := by decide
 
 /-- **finish_status_table.**  The status rule of the real `rawResponseWriter.finish`, observed on
 *every* prescribed value 0..1100 (regenerated from the tree on every run), is the model's: 200 for
